@@ -9,6 +9,9 @@ R4 arity: the suffix printed after Ring/Branch is the number of index symbols th
 R5 atoms are printed by the one atom printer that the decoder's writer uses
 R11 a written number is the number read: in both atom readers, on every path where the digits of a capture group are parsed,
    the field that group feeds is (up to sign) the parsed number -- 'H0' is not one hydrogen, isotope 0 is not "absent"
+R12 a number held is the number written: the atom printer omits isotope / H count / charge only where the field equals what
+   the SMILES atom reader assigns to an unwritten field
+R13 every parsed molecule is kekulised, or rejected, before it is translated (the rejection discipline of C05/K1)
 R10 fragments keep the input order: the graph's roots container is an append-only list walked front to back
 Not decided: that no atom or bond is dropped, merged or reordered for every spelling (parser / DFS behaviour).
 """
@@ -273,6 +276,10 @@ def run(ctx, rep):
     from rules import symlang
     symlang.check_reader_keeps_groups(ctx, rep, "R9")
     symlang.check_parsed_numerals(ctx, rep, "R11")
+    symlang.check_printer_keeps_fields(ctx, rep, "R12")
+    # R13: "aromatic bonds become a consistent single/double assignment": nothing is translated before kekulize() has succeeded
+    from rules.C05 import check_rejection
+    check_rejection(ctx, rep, "R13")
     check_bond_symbol_table(ctx, rep)
     # R8: "every SMILES the encoder accepts with strict=True": the acceptance test is count > capacity for every atom,
     # capacity being the property that subtracts explicit hydrogens (the comparator rule of C06/Q1)
@@ -417,7 +424,13 @@ def check_explicit_bond_symbols(ctx, rep, RULE="R6"):
     for q in ctx.cg.region(s2m):
         g = ctx.db.funcs[q]
         callees = {h.qual if h.cls is None else h.cls.name + "." + h.name for s in ctx.cg.sites(g) for h in s.callees}
-        if s2b.qual in callees and any(c.startswith("MolecularGraph.") and c.split(".")[1] in adders for c in callees):
+        reads = s2b.qual in callees or (s2b.qual in set(ctx.cg.region(g)) and g is not s2m and g.module is s2b.module
+                                        and not any(h.qual in set(ctx.cg.region(s2m)) and h is not g and h.module is g.module and
+                                                    any(c2.cls is not None and c2.name in adders for s2 in ctx.cg.sites(h) for c2 in s2.callees)
+                                                    for s in ctx.cg.sites(g) for h in s.callees))
+        # ... directly, or through a helper of its own (the bond symbol of each ring digit read in a helper): but not a driver
+        # that merely calls the functions that do both
+        if reads and any(c.startswith("MolecularGraph.") and c.split(".")[1] in adders for c in callees):
             funcs.append(g)
     if not funcs:
         raise AnalysisError("no parser function both reads bond symbols (smiles_to_bond) and adds bonds")
